@@ -65,20 +65,25 @@ def parseStreams (ws : List String) : List (String × List String) :=
     | name :: rest => (name, splitList (":".intercalate rest))
     | [] => ("", [])
 
-/-- edge record `0>1:a+,b-;a` = producer>consumer : attempts (suffix + enqueued, suffix - dropped) ; received -/
-def judgeEdge (w : String) : String :=
+/-- edge record `0>1:a+,b-;a` = producer>consumer : attempts (suffix + enqueued, suffix - dropped) ; received.
+A reported failed `try_send` counts only if the model agrees that the inbox was full. -/
+def judgeEdge (log : List (Obs String)) (w : String) : String :=
   match w.splitOn ":" with
   | [edge, body] =>
-    match body.splitOn ";" with
-    | [att, got] =>
+    match body.splitOn ";", edge.splitOn ">" with
+    | [att, got], [c, q] =>
       let attempts := splitList att
       let recvd := splitList got
       let sent := attempts.map (fun a => (a.dropEnd 1).toString)
       let enqd := (attempts.filter (fun a => a.endsWith "+")).map (fun a => (a.dropEnd 1).toString)
+      let dropd := (attempts.filter (fun a => a.endsWith "-")).map (fun a => (a.dropEnd 1).toString)
+      let modelDrops := drops log (c.toNat?.getD 0) (q.toNat?.getD 0)
       if recvd == sent then "ok"
+      else if dropd != modelDrops then
+        s!"JUDGE edge {edge}: forwarding of {dropd} reported as failed, the inbox was full only for {modelDrops}; produced {sent}, received {recvd}"
       else if recvd == enqd then "KNOWN"
       else s!"JUDGE edge {edge}: produced {sent}, of which enqueued {enqd}, but received {recvd}"
-    | _ => "BADLINE"
+    | _, _ => "BADLINE"
   | _ => "BADLINE"
 
 def diffOr (model impl : String) : String := if model == impl then "ok" else s!"DIFF model={model}"
@@ -173,7 +178,7 @@ def step (d : DSt) (line : String) : DSt × String :=
       let m := if d.st.out.isEmpty then "-" else ",".intercalate d.st.out
       (d, if d.broken then "SKIP" else diffOr m impl)
     | "edges" :: es =>
-      let vs := es.map judgeEdge
+      let vs := es.map (judgeEdge d.st.log)
       match vs.find? (fun v => v.startsWith "JUDGE" || v == "BADLINE") with
       | some v => (d, v)
       | none =>
